@@ -23,7 +23,7 @@ pub fn run(ctx: &Ctx) -> i32 {
     seqs.extend(sequences(atts.len(), 1)); seqs.extend(sequences(atts.len(), 2));
     if maxn >= 3 { let sub: Vec<usize> = vec![0, 1, 2, 5, 7, 13, 26, 29]; for s in sequences(sub.len(), 3) { seqs.push(s.iter().map(|i| sub[*i]).collect()) } }
     let nbases = if th { bases.len() } else { 6 };
-    let acc = (0..nbases).into_par_iter().map(|bi| {
+    let acc = (0..nbases).into_par_iter().with_max_len(1).map(|bi| {
         let mut acc = Acc::new();
         let base = &bases[bi];
         for (si, seq) in seqs.iter().enumerate() {
